@@ -252,6 +252,10 @@ def genPlay (seed n : Nat) (rootsFile : String) : IO Unit := do
       starts2 := { p with halfmove := 200 + extra } :: starts2
     else starts2 := p :: starts2
   starts := starts2
+  -- one very long game, taken back to the start: a history deeper than any small fixed-size buffer
+  let shuffle := ["g1f3:0", "g8f6:0", "f3g1:0", "f6g8:0"]
+  let longOps := (List.replicate 150 shuffle).flatten ++ List.replicate 600 "undo"
+  out.putStrLn s!"play\t{startFen}\t{" ".intercalate longOps}"
   for p in starts do
     let (r1, len) := r.below 40
     let (r2, withNulls) := r1.below 3
@@ -384,6 +388,16 @@ def genFen (seed n : Nat) (rootsFile : String) : IO Unit := do
       if off % 4 == 0 then
         out.putStrLn s!"fen\t{pad}{wide}/8/8/8/8/8/8/8 w - - 0 1"
         out.putStrLn s!"fen\trnbqkbnr/pppppppp/8/8/8/8/PPPPPPPP/RNBQKBNR w KQkq - 0 {pad}{wide}"
+  -- characters that the Unicode class tests (`is_numeric`, `is_alphabetic`, `is_whitespace`, case mapping) accept
+  -- although they are not the ASCII digit / letter / space the grammar means: put in the place of every character
+  -- of a valid text, and on their own
+  let kiwi := "r3k2r/p1ppqpb1/bn2pnp1/3PN3/1p2P3/2N2Q1p/PPPBBPPP/R3K2R w KQkq - 0 1"
+  for odd in ["٨", "８", "²", "Ⅷ", "½", "Ｋ", "к", "ｑ", "\u00a0", "\u2003", "\u3000", "Ｗ"] do
+    out.putStrLn s!"fen\t{odd}"
+    for base in [startFen, kiwi] do
+      let cs := base.toList
+      for i in List.range cs.length do
+        out.putStrLn s!"fen\t{String.ofList (cs.take i)}{odd}{String.ofList (cs.drop (i + 1))}"
   -- systematic rank-width corruptions of the start position
   let ranks := ["rnbqkbnr", "pppppppp", "8", "8", "8", "8", "PPPPPPPP", "RNBQKBNR"]
   let variants := ["9", "7", "44p", "ppppppppp", "ppppppp", "71", "17", "p7p", "8p", "", "1p6", "0p7", "p0p6"]
@@ -415,6 +429,7 @@ def main (args : List String) : IO UInt32 := do
   | ["gen", "see", seed, n, roots] => genTactical "see" seed.toNat! n.toNat! roots; return 0
   | ["gen", "san", seed, n, roots] => genTactical "san" seed.toNat! n.toNat! roots; return 0
   | ["gen", "picker", seed, n, roots] => genPicker seed.toNat! n.toNat! roots; return 0
+  | ["gen", "drawsearch", seed, n, roots] => genDrawSearch seed.toNat! n.toNat! roots; return 0
   | ["gen", "search", mode, seed, n, maxDepth, roots] =>
     genSearch mode seed.toNat! n.toNat! maxDepth.toNat! roots; return 0
   | _ =>
